@@ -360,7 +360,45 @@ def gen_program(rng, focus="mix", wild=False, max_bodies=4, max_ops=7):
     return ",".join(t.specs), "|".join(bodies)
 
 
+def gen_watch_reopen(rng):
+    """watch channels that lose their last receiver and are re-opened by subscribe while another handle of the sender
+    keeps sending: main owns the creation-time receiver and drops it early, body 1 sends through sender slot 0, body 2
+    subscribes through sender slot 1 and then looks / waits."""
+    k1, k2 = rng.choice("TA"), rng.choice("TA")
+    v = [1]
+
+    def val():
+        v[0] += 1
+        return v[0]
+    main = ["wy0.0"] if rng.random() < 0.8 else ["wb0.0", "wy0.0"]
+    sp = ["st1" if k1 == "T" else "sa1", "st2" if k2 == "T" else "sa2"]
+    if rng.random() < 0.5:
+        main = sp + main
+    else:
+        main = main + sp
+    main += ["jt0" if k1 == "T" else "aw0", ("jt1" if k1 == "T" else "jt0") if k2 == "T" else ("aw1" if k1 == "A" else "aw0")]
+    b1 = []
+    for _ in range(rng.randint(1, 3)):
+        r = rng.random()
+        b1.append("wp0.0.%d" % val() if r < 0.5 else ("wm0.0.%d.1" % val() if r < 0.75 else "ws0.0.%d" % val()))
+        if rng.random() < 0.3:
+            b1.append("yd")
+    if rng.random() < 0.3:
+        b1.append("wx0.0")
+    b2 = ["wn0.1.1"]
+    if rng.random() < 0.3:
+        b2.insert(0, "yd")
+    for _ in range(rng.randint(1, 4)):
+        b2.append(rng.choice(["wu0.1", "wu0.1", "wh0.1", "wb0.1", "wc0.1", "wc0.1", "wf0.1.%d" % rng.randint(2, max(2, v[0]))]))
+    if rng.random() < 0.4:
+        b2.append("wx0.1")
+    return "h0:2:1", "|".join(";".join(b) for b in (main, b1, b2))
+
+
 def gen_case(rng, focus="mix", wild=False, max_bodies=4, max_ops=7):
+    if focus == "watchre":
+        objs, bodies = gen_watch_reopen(rng)
+        return "tok none %s %d %s %s" % (gen_script(rng), rng.randrange(1, 2**32), objs, bodies)
     objs, bodies = gen_program(rng, focus, wild, max_bodies, max_ops)
     ms = "none" if rng.random() < 0.85 else "fail:%d" % rng.choice([5, 20, 60, 200])
     return "tok %s %s %d %s %s" % (ms, gen_script(rng), rng.randrange(1, 2**32), objs, bodies)
